@@ -64,8 +64,13 @@ NameLess(a, b) ==
 ---------------------------------------------------------------------------
 (* Record-type rules *)
 Singleton(ty) == ty \in {"SOA", "CNAME", "DNAME", "NSEC", "NXT"}
-Kind(ty) == IF ty = "CNAME" THEN "cname"
-            ELSE IF ty \in {"NSEC", "NSEC3", "KEY"} THEN "neutral" ELSE "regular"
+(* RFC 4035 2.5: beside a CNAME only its RRSIG, the NSEC (and NSEC3) RRsets with their RRSIGs and a
+   KEY RRset (RFC 3007) may be present; everything else - DNSKEY and RRSIG(DNSKEY) included - is
+   "other data".  Types are strings; "RRSIG/X" is the RRSIG rdataset covering X. *)
+CnameTypes == {"CNAME", "RRSIG/CNAME"}
+NeutralTypes == {"NSEC", "NSEC3", "KEY", "RRSIG/NSEC", "RRSIG/NSEC3", "RRSIG/KEY"}
+Kind(ty) == IF ty \in CnameTypes THEN "cname"
+            ELSE IF ty \in NeutralTypes THEN "neutral" ELSE "regular"
 SoaMinimum(data) == data[5]             \* SOA data = <<serial, refresh, retry, expire, minimum>>
 
 NodeTypes(z, own) == {k[2] : k \in {k \in DOMAIN z : k[1] = own}}
